@@ -15,4 +15,5 @@ Extraction "m.ml" trim_collinear simplify_path rdp_path rdp_path_flags strip_dup
   get_bounds translate_path translate_ub_free path_length ellipse_i ellipse_d ellipse_params ellipse_angle
   perp_d2 is_collinear sublistb path_eqb keeps_ends no_cyc_dup no_reversal no_cyc_collinear corners_or_empty
   simplify_fixed_f rdp_bad_f  area2 Z2F fsqr fadd fsub fmul fdiv fsqrt pt_eqb near_equal std_unique
-  no_lin_dup no_lin_reversal no_lin_collinear bbox_of collect cross eps_sqr_ge_max.
+  no_lin_dup no_lin_reversal no_lin_collinear bbox_of collect cross eps_sqr_ge_max
+  strip_near_equal_d near_equal_d strip_near_equal_paths strip_near_equal_paths_d strip_duplicates_paths.
